@@ -805,7 +805,6 @@ func genC05Filter(c *ctx) {
 				feedOut([]byte(full + "\r\n"))
 			}
 			feedOut([]byte(full + "\r\n")) // a second identical chunk is NOT suppressed
-			feedIn([]byte("typed during the 3 s\r"))
 			// DIRECT ORACLE: once ctrl-C, the command and its echo are through, output passes again
 			mark := []byte(fmt.Sprintf("after-drag-%d\r\n$ ", i))
 			at := x.rec.length()
@@ -813,6 +812,7 @@ func genC05Filter(c *ctx) {
 			if got := x.rec.snapshot()[at:]; !c05Only(got, 't', mark) && outs[i].viol == "" {
 				outs[i].viol = fmt.Sprintf("server output after a drag upload's command echo did not reach the terminal: fed %q, terminal got %v", mark, got)
 			}
+			feedIn([]byte("typed during the 3 s\r"))
 		}
 		x.close()
 		outs[i].args = []string{c05Flags(o, notTrz, true), hx([]byte(cmd)), table, "-", hx([]byte(c05TraceOn)), hx([]byte(c05TraceOff)), strings.Join(toks, ",")}
